@@ -120,6 +120,7 @@ class TLCResult:
         m = re.search(r"depth of the complete state graph search is (\d+)", out)
         self.depth = int(m.group(1)) if m else 0
         self.violated = re.findall(r"Invariant (\S+) is violated", out) + \
+            re.findall(r"The invariant of (\S+) is equal to FALSE", out) + \
             re.findall(r"Action property (\S+) is violated", out) + \
             (["<temporal>"] if "Temporal properties were violated" in out else [])
         self.ok = (rc == 0 and "No error has been found" in out) or \
